@@ -209,10 +209,11 @@ pub fn run(out: &mut dyn Write, thorough: bool) {
     b.fill(false, MAX + 5);
     b.probe();
     // growth out of exactly-full archetypes of every size class in between
-    for n in [1usize, 3, 255, 256, 4095, 4096, 65535, 65536, 65537, 131070, 1 << 18, (1 << 20) - 1, 1 << 20, (1 << 20) + 1, 3 << 20, 1 << 22] {
+    for n in [1usize, 3, 255, 256, 4095, 4096, 65535, 65536, 65537, 131070, 1 << 18, (1 << 20) - 1, 1 << 20, (1 << 20) + 1, 3 << 20, 1 << 22,
+              (1 << 23) - 1, (1 << 23) + 1, MAX - 4, MAX - 3, MAX - 1] {
         b.with_capacity(n);
         b.fill(true, MAX);      // to capacity
-        b.fill(false, 2);       // must grow
+        b.fill(false, 2);       // must grow (right below the limit: by one position, then the limit panic)
         b.fill(true, 5);
         b.probe();
     }
